@@ -82,7 +82,7 @@ def rule_writers(E, R):
                 "Scheme is exactly an Arc<SchemeBuilder>", str([x["ty"] for x in f]), s["span"])
     hb = E.hir(SB + "::build")
     if hb:
-        t = tail(hb["body"])
+        t = fn_result(hb)
         ok = t.get("k") == "Struct" and any(norm(c.get("callee", "")) == "alloc::sync::Arc::new" and local_name(c["args"][0]) == "self"
                                             for c in exprs(t, "Call"))
         R.check(ok, rule, SB + "::build", "build() freezes the builder itself (Arc::new(self))", where=hb["span"])
